@@ -264,18 +264,19 @@ def sockClose (p : Pair) (x : Side) (id : Nat) : Py Pair :=
     | _, _ => throw .outOfFuel
   else pure (p.set x (setSock c id (baseClose s)))
 
-/-- `llc.close(socket)` -/
+/-- `llc.close(socket)` (with the repair of the double close: a socket whose SAP has
+gone is only closed) -/
 def apiClose (p : Pair) (x : Side) (id : Nat) : Step :=
   match ((p.get x).sock id).addr with
   | none => sockClose p x id >>= fun p1 => done p1 .unit
   | some a =>
     match (p.get x).sap a with
-    | none => fail p .attr
+    | none => sockClose p x id >>= fun p1 => done p1 .unit
     | some _ =>
       sockClose p x id >>= fun p1 =>
       let c1 := p1.get x
       match c1.sap a with
-      | none => fail p1 .attr
+      | none => done p1 .unit      -- unreachable: the link never changes a table (`pump_same`)
       | some e1 => done (p1.set x (removeSocket c1 id a e1 (c1.sock id))) .unit
 
 /-- one explicit `collect`/`dispatch` step -/
